@@ -17,6 +17,7 @@ def step (line : String) : String :=
   | "c10" :: args => Ioapi.run args
   | "c07" :: args => NcStore.run args
   | "c19" :: args => Icartt.run args
+  | "c18" :: args => Bpch.run args
   | "bin" :: args => Camx.runBin args
   | _ => "err bad-stream"
 
